@@ -13,4 +13,18 @@ def Lawful {α : Type} (c : Codec α) (representable : α → Prop) : Prop :=
       ∧ c.size v = bs.length                                   -- reported size = bytes occupied
       ∧ ∀ rest, c.unpack (bs ++ rest) = some (v, bs.length)    -- unpack returns it, consumes exactly that
 
+/-- the same for a re-used INSTANCE: the wire type is lawful and an instance whose size slot
+is that of its value packs as the value does -/
+def InstLawful {α : Type} (c : InstCodec α) (representable : α → Prop) : Prop :=
+  Lawful c.toCodec representable ∧ ∀ v, representable v → c.packI v (c.size v) = c.pack v
+
+/-- operations the statement speaks about: constructing from a representable value, unpacking
+a buffer that starts with the packed form of a representable value (or a buffer the class
+refuses), and any number of reads -/
+def Canonical {α : Type} (c : InstCodec α) (representable : α → Prop) : Op α → Prop
+  | .construct (some v) => representable v
+  | .construct none => ∀ v, c.dflt = some v → representable v
+  | .unpack d => c.unpack d = none ∨ ∃ v bs rest, representable v ∧ c.pack v = some bs ∧ d = bs ++ rest
+  | _ => True
+
 end PlumVerif.C19
